@@ -45,6 +45,7 @@ type rec struct {
 	payload    []byte
 	marker     int64 // height of an end-of-height marker, else -1
 	desc       string
+	tag        string // part "replay": how catchupReplay's hook reports this record when it is applied
 }
 
 // parseStream is the reference parser (no size cap): complete, checksum-correct records from the start of s;
